@@ -52,6 +52,8 @@ func init() {
 				{Scenario: "c08_rollback", Params: mustJSON(RollbackParams{}), Bound: 0, Shards: 8},
 				{Scenario: "c08_rollback", Params: mustJSON(RollbackParams{Fail: "failoverlog"}), Bound: 0, Shards: 2},
 				{Scenario: "c08_rollback", Params: mustJSON(RollbackParams{Fail: "reopen"}), Bound: 0, Shards: 2},
+				{Scenario: "c08_rollback", Params: mustJSON(RollbackParams{Fail: "failoverlog-silent"}), Bound: 0, Shards: 2, Note: "the failover-log query is never answered"},
+				{Scenario: "c08_rollback", Params: mustJSON(RollbackParams{Fail: "reopen-silent"}), Bound: 0, Shards: 2, Note: "the second stream request is never answered"},
 				{Scenario: "reopen_life", Params: mustJSON(LifeParams{Oracle: "delivery", Segs: 2}), Bound: 0, Shards: 8, Note: "rollbacks answered to RE-opens of a running session, including a second rollback to the same position with no progress in between"},
 			}
 		},
@@ -155,6 +157,16 @@ func rollbackMain(p RollbackParams) {
 		}
 	case "reopen":
 		c.Vb[0].Opens = append(c.Vb[0].Opens, gocbcore.SimOpen{Kind: "err", Err: gocbcore.ErrTemporaryFailure})
+	case "failoverlog-silent":
+		// the request is never answered: the library's own time-out has to fail the start-up
+		c.Fault = func(r *gocbcore.SimRequest) gocbcore.SimAnswer {
+			if r.Kind == "failoverlog" {
+				return gocbcore.SimAnswer{Kind: "drop"}
+			}
+			return gocbcore.SimAnswer{}
+		}
+	case "reopen-silent":
+		c.Vb[0].Opens = append(c.Vb[0].Opens, gocbcore.SimOpen{Kind: "drop"})
 	}
 	c.Append(1, marker(1, 1), symbolPacket("M", 1))
 	e := NewEnv(c, o)
